@@ -3,6 +3,7 @@ import Pmn.Model.Fmt
 import Driver.Proto
 import Driver.OpsTopo
 import Driver.OpsCkt
+import Driver.OpsSess
 open Driver
 
 def opGrid (args : List String) : String :=
@@ -41,6 +42,7 @@ def dispatch (line : String) : String :=
   | "fmt" :: r => opFmt r
   | "topo" :: r => opTopo r
   | "ckt" :: r => opCkt r
+  | "sess" :: r => opSess r
   | _ => "bad-op"
 
 partial def loop (h : IO.FS.Stream) (out : IO.FS.Stream) : IO Unit := do
